@@ -343,3 +343,40 @@ Definition known_class (sh : tshape) : option kclass :=
   else if anywhere k_depth_leak sh then Some KDepthLeak
   else None.
 Definition Known_C09 (sh : tshape) : Prop := known_class sh <> None.
+
+(* ---------- descriptions that are Rust programs accepted by the compiler and the derive macros ---------- *)
+Fixpoint shape_wf (sh : tshape) : bool :=
+  let inl := fix go (ts : list tshape) : bool := match ts with [] => true | t :: r => shape_wf t && go r end in
+  let inf := fix go (fs : list (bytes * tshape)) : bool := match fs with [] => true | (_, t) :: r => shape_wf t && go r end in
+  match sh with
+  | TPrim _ | TUnit | TIpAddr => true
+  | TPhantom t | TSeq t | TOption t | TNewtype t => shape_wf t
+  | TMap k v => shape_wf k && shape_wf v
+  | TTuple ts => nonempty ts && inl ts
+  | TStruct fs => inf fs
+  | TUnitEnum r ds => nonempty ds && repr_ok r ds
+  | TStrEnum names => nonempty names
+  | TEnum vs =>
+      nonempty vs
+      && (fix go (vs : list (vkind * list (bytes * tshape))) : bool :=
+            match vs with
+            | [] => true
+            | (k, fs) :: r => nonempty fs && inf fs && sig_eqb (variant_sig (k, fs)) (sig_of sh) && go r
+            end) vs
+  | TDict _ fs =>
+      (fix go (fs : list (bytes * (bool * tshape))) : bool :=
+         match fs with
+         | [] => true
+         | (_, (o, t)) :: r => shape_wf t && (o || negb (match t with TOption _ => true | _ => false end)) && go r
+         end) fs
+  end.
+
+(* ---------- the property, per type definition ---------- *)
+Definition C09_statement (sh : tshape) : Prop :=
+  sig_of sh = dsig sh /\ single_ok (sig_of sh) = true /\
+  forall (c : cfg) (e : endian) (pos : N) (x : rval),
+    typed sh x = true -> (has_option sh = true -> c_oaa c = true) ->
+    within_limits (dval_of_shape sh x) = true -> (len (marshal_top e pos (dval_of_shape sh x)) < 2 ^ 32)%N ->
+    wf (dval_of_shape sh x) = true /\ vsig (dval_of_shape sh x) = sig_of sh /\
+    ser_top c e pos (sig_of sh) (sval_of_shape sh x) = Ok (marshal_top e pos (dval_of_shape sh x), []).
+Definition C09_full_statement : Prop := forall sh, shape_wf sh = true -> C09_statement sh.
